@@ -135,10 +135,44 @@ inductive Stmt
   | insert (rows : List (List Expr))      -- full rows, one expression per column (lit / par)
   | failing (s : Stmt)                    -- a statement the database fails (deadlock, lock wait timeout, …)
   | upsert (rows : List (List Expr)) (assign : List (Nat × UpSrc))   -- INSERT … ON DUPLICATE KEY UPDATE
+  | updateLim (sets : List (Nat × SetE)) (w : Cond) (ord : List (Nat × Bool)) (lim : Nat)  -- … ORDER BY … LIMIT n
+  | deleteLim (w : Cond) (ord : List (Nat × Bool)) (lim : Nat)
   deriving Repr
 
 inductive SqlErr | dupKey | other
   deriving Repr, DecidableEq
+
+/-! ORDER BY (integer columns; NULL sorts first ascending) and LIMIT -/
+
+/-- three-way comparison of two cells for ORDER BY: -1, 0, 1 -/
+def ordCmp : Val → Val → Int
+  | .null, .null => 0
+  | .null, _ => -1
+  | _, .null => 1
+  | .int a, .int b => if a < b then -1 else if a == b then 0 else 1
+  | .str a, .str b => if bytesLt a b then -1 else if a == b then 0 else 1
+  | .int _, .str _ => -1
+  | .str _, .int _ => 1
+
+/-- does row `a` sort strictly before row `b` under the ORDER BY items (column, descending)? -/
+def rowBefore (ord : List (Nat × Bool)) (a b : Row) : Bool :=
+  match ord with
+  | [] => false
+  | (c, desc) :: rest =>
+    let d := ordCmp (a.getD c .null) (b.getD c .null)
+    if d == 0 then rowBefore rest a b else (d < 0) != desc
+
+/-- stable insertion sort -/
+def insertRow (ord : List (Nat × Bool)) (r : Row) : List Row → List Row
+  | [] => [r]
+  | x :: xs => if rowBefore ord r x then r :: x :: xs else x :: insertRow ord r xs
+
+def orderRows (ord : List (Nat × Bool)) (rows : List Row) : List Row :=
+  rows.foldr (fun r acc => insertRow ord r acc) []
+
+/-- the keys of the rows an UPDATE / DELETE … WHERE … ORDER BY … LIMIT n works on -/
+def limitedKeys (sc : Schema) (t : Table) (args : Args) (w : Cond) (ord : List (Nat × Bool)) (lim : Nat) : List Key :=
+  ((orderRows ord (t.filter fun r => matches_ r args w)).take lim).map (keyOf sc)
 
 /-- one row of INSERT … ON DUPLICATE KEY UPDATE: inserted when its key is new, otherwise the stored
     row gets the assignments (`VALUES(c)` is the new row's value of `c`) -/
@@ -169,5 +203,12 @@ def apply (sc : Schema) (t : Table) (args : Args) : Stmt → Except SqlErr (Tabl
   | .upsert rows assign =>
     let news := rows.map fun es => es.map (evalE [] args)
     .ok (news.foldl (upsertRow sc assign) t, news.length)
+  | .updateLim sets w ord lim =>
+    let sel := limitedKeys sc t args w ord lim
+    .ok (t.map fun r => if sel.contains (keyOf sc r) then applySets args sets r else r,
+         (t.filter fun r => sel.contains (keyOf sc r) && applySets args sets r != r).length)
+  | .deleteLim w ord lim =>
+    let sel := limitedKeys sc t args w ord lim
+    .ok (t.filter (fun r => !sel.contains (keyOf sc r)), (t.filter fun r => sel.contains (keyOf sc r)).length)
 
 end Seata.DB
